@@ -31,7 +31,7 @@ func narrowingFn(c *core.Ctx, ps []*procInfo) (*ssa.Function, *ssa.Call, *procIn
 				continue
 			}
 			cal := call.Common().StaticCallee()
-			if cal == nil || !c.InScope(cal) || cal.Signature.Results().Len() != 2 || core.PkgOf(cal) != core.PkgOf(p.Props) {
+			if cal == nil || !c.InScope(cal) || cal.Signature.Results().Len() != 2 || !core.PartOf(core.PkgOf(cal), core.PkgOf(p.Props)) {
 				continue
 			}
 			// (property [, candidates]) -> (candidates, error), as a function or as a method of the processor
@@ -553,6 +553,22 @@ func c08LoopIndependence(c *core.Ctx, r *core.Report, p *procInfo) {
 					bad = "nil-error return at " + c.Pos(ret.Pos())
 				}
 			}
+		}
+	}
+	if bad != "" && rl.Body != nil && len(rl.Body.Instrs) > 0 {
+		// single-exit forms (`err = ...; break scan` ... `return nil, err`): confirm path by path - every path
+		// that starts an iteration and leaves the loop other than through its header ends in a non-nil error
+		reach := core.ReachableFrom(rl.Body, nil)
+		okAll, n := true, 0
+		exhausted := core.WalkReturnsWithin(rl.Body, map[*ssa.BasicBlock]bool{rl.Header: true}, func(ret *ssa.Return, nilness int, resolved ssa.Value) bool {
+			n++
+			if nilness != 1 && core.ClassifyReturn(ret) != core.RetError && !(resolved != nil && !core.IsNilConst(resolved) && core.NonNilAtFrom(resolved, ret, reach)) {
+				okAll = false
+			}
+			return okAll
+		})
+		if okAll && !exhausted {
+			bad = ""
 		}
 	}
 	pos := c.FnPos(p.Props)
